@@ -9,7 +9,10 @@ TOKENS = [
     "count(", "length(", " ", "\n",
 ]
 
-EDIT_ALPHABET = list("$@.[]()?!*,:'\"\\=<>&|-+_aezAE019 \n\t") + ["\u000b", " ", " ", "é", "\U0001F600"]
+EDIT_ALPHABET = list("$@.[]()?!*,:'\"\\=<>&|-+_aezAE019 \n\t") + ["\u000b", " ", " ", "é", "\U0001F600",
+                 # characters str.isdigit() / int() accept that are not ABNF DIGITs: superscript two (No),
+                 # ARABIC-INDIC DIGIT THREE (Nd), CIRCLED DIGIT ONE (No)
+                 "\u00b2", "\u0663", "\u2460"]
 
 FIX = os.path.join(os.path.dirname(os.path.dirname(os.path.dirname(os.path.abspath(__file__)))), "fixtures")
 
